@@ -327,6 +327,8 @@ fn run_history(cx: &mut Ctx, case: &Value, force_coq: bool) {
             "put" => {
                 let data = rec_bytes(&op[1]);
                 if data.len() > 64 { coq_ok = false; }
+                if data.len() >= 1000 { cx.sum.dist(if op[1][0] == 1 { "put_records_ge_1000_bytes_incompressible" } else { "put_records_ge_1000_bytes_compressible" }); }
+                if data.is_empty() { cx.sum.dist("put_empty_records"); }
                 match guarded(|| st.bs().put(&data)) {
                     Err(p) => { failure = fail(format!("put panicked: {}", p)); break 'ops; }
                     Ok(Err(e)) => { if !put_may_refuse(&spec, &data) { failure = fail(format!("put of a {}-byte record refused: {}", data.len(), e)); break 'ops; }
@@ -890,12 +892,12 @@ pub fn run(args: &Args) {
         }
     }
     // extra volume on the modelled cell
-    for _ in 0..(if args.thorough { 3000 } else { 300 }) {
+    for _ in 0..(if args.thorough { 3000 } else { 450 }) {
         let c = gen_history_sized(&mut rng, "memory", 40, true);
         run_case(&mut cx, &c, false);
     }
     // 3. bulk builders
-    let rounds = if args.thorough { 120 } else { 14 };
+    let rounds = if args.thorough { 120 } else { 24 };
     for _ in 0..rounds {
         for spec in BUILD_CELLS.iter() {
             let big = spec.starts_with("zipoffset");
